@@ -25,5 +25,6 @@ pub mod drv;
 
 #[cfg(any(verif_c01, verif_c02))] pub mod c01;
 #[cfg(verif_c02)] pub mod c02;
+#[cfg(verif_c10)] pub mod c10;
 #[cfg(verif_c14)] pub mod c14;
 
